@@ -198,7 +198,7 @@ def run_case(case, ctx):
         if np.any(over):
             j = int(np.argmax(over))
             r.fail("%s: <F>^2 = %r exceeds <F^2> = %r at q*size=%g (ratio-1 = %.3g)\n  <F>=%s\n  <F^2>=%s"
-                   % (call, F1[j] ** 2, F2[j], QX[j], F1[j] ** 2 / F2[j] - 1, F1, F2),
+                   % (call, float(F1[j] ** 2), float(F2[j]), QX[j], F1[j] ** 2 / F2[j] - 1, F1, F2),
                    dict(fk, clause="cauchy-schwarz", dispersity="mono" if mono else "pd"), nt=nt)
             bad = True
         # (b) forward limit
@@ -207,7 +207,7 @@ def run_case(case, ctx):
                 r.inconc("vanishing forward scattering (contrast matched)")
             elif abs(F1[0] ** 2 - F2[0]) > 1e-6 * F2[0]:
                 r.fail("%s: monodisperse q->0: <F>^2 = %r but <F^2> = %r (ratio-1 = %.3g)"
-                       % (call, F1[0] ** 2, F2[0], F1[0] ** 2 / F2[0] - 1), dict(fk, clause="forward-limit"), nt=nt)
+                       % (call, float(F1[0] ** 2), float(F2[0]), F1[0] ** 2 / F2[0] - 1), dict(fk, clause="forward-limit"), nt=nt)
                 bad = True
             else:
                 br.append("forward-limit-held")
@@ -218,7 +218,7 @@ def run_case(case, ctx):
             if np.any(d > tol):
                 j = int(np.argmax(d / tol))
                 r.fail("%s: spherically symmetric, monodisperse: <F>^2 = %r but <F^2> = %r at q*size=%g (ratio-1 = %.3g)"
-                       % (call, F1[j] ** 2, F2[j], QX[j], F1[j] ** 2 / F2[j] - 1), dict(fk, clause="spherical-equality"),
+                       % (call, float(F1[j] ** 2), float(F2[j]), QX[j], F1[j] ** 2 / F2[j] - 1), dict(fk, clause="spherical-equality"),
                        nt=nt)
                 bad = True
             else:
@@ -263,11 +263,10 @@ def run_case(case, ctx):
                     bad = True
                 else:
                     r.branch("equivalent-volume-held")
-        if nmodes == 0 or True:
-            if not (np.isfinite(vshell) and vshell > 0 and np.isfinite(vform) and vform > 0):
-                r.fail("%s: V_shell = %r, V_form = %r not positive and finite" % (call, vshell, vform),
-                       dict(fk, clause="positive", what="volume"), nt=nt)
-                bad = True
+        if nmodes == 0 and not (np.isfinite(vshell) and vshell > 0 and np.isfinite(vform) and vform > 0):
+            r.fail("%s: V_shell = %r, V_form = %r not positive and finite" % (call, vshell, vform),
+                   dict(fk, clause="positive", what="volume"), nt=nt)
+            bad = True
         if not bad:
             r.ok(nt=nt, outcome="%s:%s" % (br[0], "nt" if nt else "flat"), branches=br + ["held"])
             if nt and not r.samples:
